@@ -51,14 +51,14 @@ def run(ctx):
         ctx.tlc_mc(fam, "BTreeMech", "BTreeMech_MC_deg3.cfg", workers=16, timeout=3000, heap="16g")
         ctx.tlc_mc(fam, "BTreeMech", "BTreeMech_MC_wrap_big.cfg", workers=16, timeout=3000, heap="16g")
     # 2. plans out of the spec
-    pdir, plans = ctx.tlc_plans(fam, "BTree_Gen", "BTree_Gen.cfg", num=ctx.q(50, 300), depth=40)
+    pdir, plans = ctx.tlc_plans(fam, "BTree_Gen", "BTree_Gen.cfg", num=ctx.q(40, 300), depth=40)
     plans = dedupe_prefix(plans)
     # 3. execute against the real code
     binary = ctx.go_build("c03")
     ctx.harness(binary, ["-plans", pdir, "-out", ctx.path("seq.ndjson"), "-conc", ctx.path("conc.ndjson"),
-                         "-seed", ctx.seed, "-hist", ctx.q(50, 200), "-maxops", ctx.q(160, 400),
+                         "-seed", ctx.seed, "-hist", ctx.q(40, 200), "-maxops", ctx.q(160, 400),
                          "-npar", ctx.q(12, 150), "-nconc", ctx.q(60, 1200), "-nstress", ctx.q(6, 100),
-                         "-nrace", ctx.q(30000, 300000), "-nracekeep", ctx.q(1200, 9000), "-racesecs", ctx.q(25, 120), "-shapeevery", ctx.q(2, 1),
+                         "-nrace", ctx.q(30000, 300000), "-nracekeep", ctx.q(900, 8000), "-racesecs", ctx.q(25, 120), "-shapeevery", ctx.q(2, 1), "-ngate", ctx.q(150, 1500), "-longruns",
                          "-sweep", ctx.q(4, 10), "-stats", ctx.path("stats.json")],
                 timeout=1800, traces=[ctx.path("seq.ndjson"), ctx.path("conc.ndjson")])
     # 4. validate what the real code did
